@@ -168,6 +168,8 @@ type c10Case struct {
 	persisted bool
 	// interlude: what the watching connection does between the write and MULTI (0 nothing, 1 CLIENT INFO, 2 CLIENT LIST, 3 reads)
 	interlude int
+	// wLast: the setup writes the watched key last (it then holds the newest version number of the database)
+	wLast bool
 }
 
 // c10WatchStyles: the ways a key can end up in the watch set. w is always the key the row modifies.
@@ -220,7 +222,20 @@ func c10Run(r *verdict.Run, e *emu, cs c10Case) {
 		}
 		return
 	}
-	for _, s := range cs.w.setup {
+	setup := cs.w.setup
+	if cs.wLast {
+		// the watched key is the most recent write of the database when it is watched
+		var first, last [][]string
+		for _, s := range setup {
+			if len(s) > 1 && s[1] == "w" {
+				last = append(last, s)
+			} else {
+				first = append(first, s)
+			}
+		}
+		setup = append(first, last...)
+	}
+	for _, s := range setup {
 		step(B, sb, "B", s...)
 	}
 	for _, wcmd := range c10WatchStyles[cs.style%len(c10WatchStyles)] {
@@ -307,6 +322,9 @@ func c10Run(r *verdict.Run, e *emu, cs c10Case) {
 	if cs.interlude > 0 {
 		key += fmt.Sprintf("/interlude-%d", cs.interlude)
 	}
+	if cs.wLast {
+		key += "/w-written-last"
+	}
 	rep := map[string]any{"script": log, "expect_abort": cs.w.modify}
 	// cross-check: the model must agree with the explicit table
 	modelAbort := exExp.Val.Null && exExp.Pred == nil && exExp.Err == ""
@@ -381,6 +399,7 @@ func checkC10(r *verdict.Run) {
 		if cases[i].position == "before-multi" {
 			cases[i].interlude = i % 4
 		}
+		cases[i].wLast = (i/4)%2 == 1
 	}
 	// a sample of the cases again on an emulator with a persist path, with a snapshot pass between the write and EXEC
 	{
@@ -398,7 +417,7 @@ func checkC10(r *verdict.Run) {
 	}
 	r.Rule = fmt.Sprintf("exhaustive matrix: %d write/control rows (every effective write command per key type and state, reads, failing writes, writes to other keys, natural expiry, WATCH dropped by UNWATCH/DISCARD/EXEC) x issuer {watching connection, other connection} x position {between WATCH and MULTI, between MULTI and EXEC} x 8 ways of watching the key (all 8 for a write by the other connection before MULTI, rotating otherwise: alone, with other keys, in a second WATCH that lists already watched keys before or after it, twice); "+
 		"each case on a fresh emulator: WATCH w; [write]; MULTI; [write]; SET marker 1; EXEC - EXEC must be null and marker absent iff the row is an effective write; the reference model is run on the same script and must agree with the table (else inconclusive). "+
-		"between the write and MULTI the watching connection runs nothing, CLIENT INFO, CLIENT LIST or reads of the key; a sample of the cases runs again with a persist path and a complete snapshot pass between the write and EXEC. Plus the schedule dimension: 4-8 connections increment a shared string counter / hash field / list length with WATCH-read-MULTI-write-EXEC under yields injected around the data store lock; every successful EXEC must have written a distinct value and the final value must equal the number of successful EXECs. distinct = (row, state, issuer, position, outcome) + concurrent configurations", len(table))
+		"in every other group of cases the set-up writes the watched key last (it then carries the newest version number of the database); between the write and MULTI the watching connection runs nothing, CLIENT INFO, CLIENT LIST or reads of the key; a sample of the cases runs again with a persist path and a complete snapshot pass between the write and EXEC. Plus the schedule dimension: 4-8 connections increment a shared string counter / hash field / list length with WATCH-read-MULTI-write-EXEC under yields injected around the data store lock; every successful EXEC must have written a distinct value and the final value must equal the number of successful EXECs. distinct = (row, state, issuer, position, outcome) + concurrent configurations", len(table))
 	r.Set("matrix_rows", len(table))
 	r.Set("matrix_cases", len(cases))
 	r.SetExhaustive(true)
